@@ -259,7 +259,8 @@ def calibrate_model_parameter(
         # FIXME by design, the constructor of the derived classed of ExponentialOfLévyModel are of the above form
         # but this is `hardcoded` in the sense that this design is not enforced
         price = COSPricer(calibrated_model).price(product=product)
-        return price - market_price
+        # the COS pricer returns an array of shape (1,) for a scalar strike, the root finder needs a scalar
+        return np.asarray(price - market_price).item()
 
     a, b = parameter_interval
     try:
